@@ -50,12 +50,21 @@ func stressMain(args []string) {
 	keys := make([]interface{}, nk)
 	secs := make([]*stressSec, nk)
 	for i := range keys {
-		if i%2 == 0 {
+		switch {
+		case variant == "xhash":
+			// short string keys, all different, of different lengths: every call hashes a string (xxhash.Sum64String)
+			keys[i] = "k" + strings.Repeat(string(rune('a'+i)), i+1)
+		case i%2 == 0:
 			keys[i] = i * 7
-		} else {
+		default:
 			keys[i] = "k" + strconv.Itoa(i)
 		}
 		secs[i] = &stressSec{}
+	}
+	home := make([]int, nk) // where each key is routed while nobody else is running
+	nshards := 0
+	for i := range keys {
+		home[i], nshards = semap.VerifShardIndex(m, keys[i])
 	}
 	var mu sync.Mutex
 	out := stressOut{Hits: []corr.Hit{}}
@@ -88,6 +97,10 @@ func stressMain(args []string) {
 				ki := r.Intn(nk)
 				key, sec := keys[ki], secs[ki]
 				write := r.Intn(100) < 30
+				// routing must be a function of the key also while other callers are routing (hook: the map's own calKeyFn)
+				if i1, n1 := semap.VerifShardIndex(m, key); i1 != home[ki] || n1 != nshards {
+					hit("routing-unstable", fmt.Sprintf("key %v is routed to shard %d of %d, earlier to shard %d of %d", key, i1, n1, home[ki], nshards))
+				}
 				ctx, cancel := context.WithCancel(master)
 				switch r.Intn(8) {
 				case 0:
